@@ -529,6 +529,13 @@ impl<'a> GeneratorState<'a> {
 
         if let Some(f) = &self.current_function {
             let code: &mut AssemblyCode = self.functions_code.get_mut(f).unwrap();
+            // Some constructs are lowered twice per nesting level (16 bits values): a function
+            // that cannot fit the 64 KB of the 6502 anyway is refused while it grows
+            if code.len() > 65536 {
+                return Err(self
+                    .compiler_state
+                    .syntax_error("Function too large", pos));
+            }
             let instruction = AsmInstruction {
                 mnemonic,
                 dasm_operand,
